@@ -3,7 +3,7 @@ import itertools
 
 import numpy as np
 
-from symtt.core import scenario
+from symtt.core import SkipTV, scenario
 from symtt import dense as D
 from .common import free_policy, all_shapes, pick, is_edge, mk_cores, meta_ok
 
@@ -91,6 +91,8 @@ def svd(ctx, shape, index, ortho_l, ortho_r, cplx):
     """t.svd(index): product, factor structure, unchanged input, overwrite variant"""
     TT = ctx.R.TT
     d = len(shape['rows'])
+    if ctx.mode == 'tv' and not (ortho_l and ortho_r):
+        raise SkipTV()          # the plain concrete run works on a pre-orthonormalised representation (other ranks): outputs are not comparable
     ref = D.tt_full(ctx, mk_cores(ctx, 'a', shape, cplx))
     box = {}
 
@@ -183,6 +185,8 @@ def pinv(ctx, shape, index, ortho_l, ortho_r, cplx):
     """t.pinv(index) == u . diag(1/s) . v with the factors of t.svd(index); input unchanged"""
     TT = ctx.R.TT
     d = len(shape['rows'])
+    if ctx.mode == 'tv' and not (ortho_l and ortho_r):
+        raise SkipTV()
     ref = D.tt_full(ctx, mk_cores(ctx, 'a', shape, cplx))
     if not ctx.sym:
         cs = mk_cores(ctx, 'a', shape, cplx)
